@@ -74,7 +74,7 @@ def post(ctx, d):
 
 def run(ctx):
     return memlib.run_family(
-        ctx, PID, make_cases,
+        ctx, PID, make_cases, wire_every=2,
         rule="11 directed programs (empty value, missing key, HSET counts, int64 edges, float edges, HRANDFIELD count "
              "signs, last field removed, deadlines crossed, WRONGTYPE) + seeded random programs (1-30 commands) of the 14 hash "
              "commands over 2-4 keys; fields/values from {empty, numeric, -0, 007, +5, 2^63+-1, non-numeric, binary with "
